@@ -39,6 +39,14 @@ func (e *Engine) toStored(v Val) *sx.T {
 
 func has(fullName, suffix string) bool { return strings.HasSuffix(fullName, suffix) }
 
+// keyBytes is the byte string of a storage key or prefix argument (declared `any` by the interop package).
+func (e *Engine) keyBytes(v Val) *sx.T {
+	if v.Ty.K == spec.KAny || v.Ty.K == spec.KInt {
+		return e.convert(v, spec.Type{K: spec.KNB}).bytes()
+	}
+	return v.bytes()
+}
+
 func (e *Engine) call(fr *frame, st *State, c *ast.CallExpr, k func(st *State, rets []Val)) {
 	info := fr.info
 	if tv, ok := info.Types[c.Fun]; ok && tv.IsType() { // conversion
@@ -200,12 +208,12 @@ func (e *Engine) call(fr *frame, st *State, c *ast.CallExpr, k func(st *State, r
 		return
 	case has(full, "interop/storage.Get"):
 		e.evalList(fr, st, c.Args, func(st *State, vs []Val) {
-			k(st, []Val{e.name(st, mk(sx.App("select", st.store, vs[1].bytes()), spec.KOpt))})
+			k(st, []Val{e.name(st, mk(sx.App("select", st.store, e.keyBytes(vs[1])), spec.KOpt))})
 		})
 		return
 	case has(full, "interop/storage.Put"):
 		e.evalList(fr, st, c.Args, func(st *State, vs []Val) {
-			key := vs[1].bytes()
+			key := e.keyBytes(vs[1])
 			put := func(st *State) {
 				e.setStore(fr, st, sx.App("store", st.store, key, sx.App("Some", e.toStored(vs[2]))), key)
 				k(st, nil)
@@ -219,7 +227,7 @@ func (e *Engine) call(fr *frame, st *State, c *ast.CallExpr, k func(st *State, r
 		return
 	case has(full, "interop/storage.Delete"):
 		e.evalList(fr, st, c.Args, func(st *State, vs []Val) {
-			key := vs[1].bytes()
+			key := e.keyBytes(vs[1])
 			e.setStore(fr, st, sx.App("store", st.store, key, sx.Atom("None")), key)
 			k(st, nil)
 		})
@@ -263,7 +271,10 @@ func (e *Engine) call(fr *frame, st *State, c *ast.CallExpr, k func(st *State, r
 		return
 	case has(full, "native/std.Deserialize"):
 		e.eval(fr, st, c.Args[0], func(st *State, v Val) {
-			k(st, []Val{{TV: spec.TV{Ty: spec.Type{K: spec.KUnit}}, Deser: v.bytes()}})
+			// deserialising an empty (or Null) byte string faults in the VM
+			e.guard(fr, st, sx.App(">", sx.App("str.len", v.bytes()), sx.Int(0)), "std.Deserialize of empty data", func(st *State) {
+				k(st, []Val{{TV: spec.TV{Ty: spec.Type{K: spec.KUnit}}, Deser: v.bytes()}})
+			})
 		})
 		return
 	case has(full, "interop/runtime.Log"):
@@ -712,7 +723,9 @@ func (e *Engine) stmt(fr *frame, st *State, s ast.Stmt, k func(st *State)) {
 			if s.Tok == token.DEC {
 				op = "-"
 			}
-			e.assign(fr, st, s.X, mk(sx.App(op, l.T, sx.Int(1)), spec.KInt))
+			r := mk(sx.App(op, l.T, sx.Int(1)), spec.KInt)
+			e.checkOverflow(fr, st, s.X, r)
+			e.assign(fr, st, s.X, r)
 			k(st)
 		})
 	case *ast.IfStmt:
@@ -813,7 +826,7 @@ const (
 func (e *Engine) find(fr *frame, st *State, prefix Val, opts int64) Val {
 	e.nsnaps++
 	// name store and prefix so that the snapshot terms stay small
-	pv := e.name(st, nbv(prefix.bytes()))
+	pv := e.name(st, nbv(e.keyBytes(prefix)))
 	it := &IterVal{ID: e.nsnaps, Store: st.store, Prefix: pv.bytes(), Opts: opts}
 	spec.DeclareSnapshots()
 	j := sx.Atom("j?snap")
@@ -825,17 +838,14 @@ func (e *Engine) find(fr *frame, st *State, prefix Val, opts int64) Val {
 		return sx.List(sx.Atom("forall"), sx.List(sx.List(sx.Atom(v), sx.Atom(sort))),
 			sx.List(sx.Atom("!"), body, sx.Atom(":pattern"), sx.List(pat)))
 	}
-	less := func(a, b *sx.T) *sx.T { return sx.App("str.<", a, b) }
-	if opts&optBackwards != 0 {
-		less = func(a, b *sx.T) *sx.T { return sx.App("str.<", b, a) }
-	}
+	// the axioms describe the ascending sequence skey(0..cnt-1), whatever the direction of this iterator
 	order := sx.List(sx.Atom("forall"), sx.List(sx.List(j2, sx.Atom("Int")), sx.List(j, sx.Atom("Int"))),
-		sx.List(sx.Atom("!"), sx.Implies(sx.And(sx.App("<=", sx.Int(0), j2), sx.App("<", j2, j), sx.App("<", j, it.lenT())), less(it.keyT(j2), it.keyT(j))),
-			sx.Atom(":pattern"), sx.List(it.keyT(j2), it.keyT(j))))
+		sx.List(sx.Atom("!"), sx.Implies(sx.And(sx.App("<=", sx.Int(0), j2), sx.App("<", j2, j), sx.App("<", j, it.lenT())), sx.App("str.<", it.akeyT(j2), it.akeyT(j))),
+			sx.Atom(":pattern"), sx.List(it.akeyT(j2), it.akeyT(j))))
 	st.facts = append(st.facts,
 		sx.App(">=", it.lenT(), sx.Int(0)),
-		q("j?snap", "Int", it.keyT(j), sx.Implies(inRange(j), sx.And(hasK(it.keyT(j)), sx.App("str.prefixof", it.Prefix, it.keyT(j)), sx.App("=", it.idxT(it.keyT(j)), j)))),
-		q("k?snap", "String", sx.App("select", it.Store, k), sx.Implies(sx.And(hasK(k), sx.App("str.prefixof", it.Prefix, k)), sx.And(inRange(it.idxT(k)), sx.App("=", it.keyT(it.idxT(k)), k)))),
+		q("j?snap", "Int", it.akeyT(j), sx.Implies(inRange(j), sx.And(hasK(it.akeyT(j)), sx.App("str.prefixof", it.Prefix, it.akeyT(j)), sx.App("=", it.aidxT(it.akeyT(j)), j)))),
+		q("k?snap", "String", sx.App("select", it.Store, k), sx.Implies(sx.And(hasK(k), sx.App("str.prefixof", it.Prefix, k)), sx.And(inRange(it.aidxT(k)), sx.App("=", it.akeyT(it.aidxT(k)), k)))),
 		order,
 	)
 	return Val{TV: spec.TV{T: sx.Int(0), Ty: spec.Type{K: spec.KInt}}, Iter: it}
@@ -1136,6 +1146,20 @@ func (e *Engine) loopCore(fr *frame, st *State, label string, node ast.Node, ext
 			h.dirty = true // may have been made dirty by earlier iterations
 		}
 	}
+	if e.Sweep && effects {
+		// frame inference: a dry run of one arbitrary iteration collects the keys the body writes; if each has a
+		// literal prefix, everything outside these prefixes is unchanged by the loop (at the head of any iteration)
+		if prefixes, ok := e.dryWrites(fr, h, evalCond, pre, post, body); ok {
+			kq := sx.Atom("k?frame")
+			var outside []*sx.T
+			for _, p := range prefixes {
+				outside = append(outside, sx.Not(sx.App("str.prefixof", sx.Str(p), kq)))
+			}
+			h.facts = append(h.facts, sx.List(sx.Atom("forall"), sx.List(sx.List(kq, sx.Atom("String"))),
+				sx.List(sx.Atom("!"), sx.Implies(sx.And(outside...), sx.App("=", sx.App("select", h.store, kq), sx.App("select", st.store, kq))),
+					sx.Atom(":pattern"), sx.List(sx.App("select", h.store, kq)))))
+		}
+	}
 	for _, inv := range ls.Invs {
 		h.facts = append(h.facts, loopEnv(h).Tr(inv.E).T)
 	}
@@ -1163,4 +1187,165 @@ func (e *Engine) loopCore(fr *frame, st *State, label string, node ast.Node, ext
 		})
 	})
 	fr.loops = fr.loops[:depth-1]
+}
+
+// literalPrefix finds a constant prefix of a key term: a string literal, the head of a concatenation, the prefix
+// of a Find snapshot the key was taken from, or the same through a definition.
+func literalPrefix(t *sx.T, defs map[string]*sx.T, depth int) (string, bool) {
+	if depth > 12 {
+		return "", false
+	}
+	if t.IsAtom() {
+		if strings.HasPrefix(t.A, "\"") {
+			s, ok := decodeLit(t.A)
+			return s, ok && s != ""
+		}
+		if d, ok := defs[t.A]; ok {
+			return literalPrefix(d, defs, depth+1)
+		}
+		return "", false
+	}
+	switch t.Head() {
+	case "str.++":
+		return literalPrefix(t.L[1], defs, depth+1)
+	case "skey": // a key of the snapshot of Find(prefix) starts with that prefix
+		return literalPrefix(t.L[2], defs, depth+1)
+	case "bv":
+		return literalPrefix(t.L[1], defs, depth+1)
+	case "mkNB":
+		return literalPrefix(t.L[2], defs, depth+1)
+	case "ite":
+		a, ok1 := literalPrefix(t.L[2], defs, depth+1)
+		b, ok2 := literalPrefix(t.L[3], defs, depth+1)
+		if ok1 && ok2 {
+			n := 0
+			for n < len(a) && n < len(b) && a[n] == b[n] {
+				n++
+			}
+			return a[:n], n > 0
+		}
+	}
+	return "", false
+}
+
+// decodeLit decodes an SMT-LIB string literal produced by sx.Str.
+func decodeLit(lit string) (string, bool) {
+	if len(lit) < 2 {
+		return "", false
+	}
+	s := lit[1 : len(lit)-1]
+	var out []byte
+	for i := 0; i < len(s); {
+		switch {
+		case strings.HasPrefix(s[i:], "\\u{"):
+			j := strings.IndexByte(s[i:], '}')
+			if j < 0 {
+				return "", false
+			}
+			var v int
+			if _, err := fmt.Sscanf(s[i+3:i+j], "%x", &v); err != nil {
+				return "", false
+			}
+			out = append(out, byte(v))
+			i += j + 1
+		default:
+			out = append(out, s[i])
+			i++
+		}
+	}
+	return string(out), true
+}
+
+// dryWrites executes one arbitrary iteration of a loop (guard, body, post) from the havocked head state h without
+// producing obligations or exits, and returns the literal prefixes of all keys written. ok is false if some key has
+// no literal prefix.
+func (e *Engine) dryWrites(fr *frame, h *State, evalCond func(st *State, kk cont), pre func(st *State, kk func(st *State)),
+	post func(st *State, kk func(st *State)), body *ast.BlockStmt) (prefixes []string, ok bool) {
+	var log []writeRec
+	savedLog, savedExits, savedRet, savedLoops := e.writeLog, fr.exits, fr.onRet, fr.loops
+	savedFaults := e.nfaults
+	var dummy []Exit
+	e.writeLog, fr.exits = &log, &dummy
+	fr.onRet = func(*State, []Val) {}
+	e.dry++
+	defer func() {
+		e.dry--
+		e.writeLog, fr.exits, fr.onRet, fr.loops = savedLog, savedExits, savedRet, savedLoops
+		e.nfaults = savedFaults
+		if r := recover(); r != nil {
+			prefixes, ok = nil, false
+		}
+		if savedLog != nil { // nested dry run: the outer run sees these writes too
+			*savedLog = append(*savedLog, log...)
+		}
+	}()
+	fr.loops = append(append([]loopCtx{}, savedLoops...), loopCtx{onBreak: func(*State) {}, onContinue: func(*State) {}})
+	evalCond(h.clone(), func(st *State, c Val) {
+		e.branch(st, c.T, func(st *State) {
+			pre(st, func(st *State) {
+				e.stmts(fr, st, body.List, func(st *State) { post(st, func(*State) {}) })
+			})
+		}, func(*State) {})
+	})
+	seen := map[string]bool{}
+	for _, w := range log {
+		defs := map[string]*sx.T{}
+		for _, d := range w.defs {
+			if d.Head() == "=" && len(d.L) == 3 && d.L[1].IsAtom() {
+				defs[d.L[1].A] = d.L[2]
+			}
+		}
+		p, ok := literalPrefix(w.key, defs, 0)
+		if !ok {
+			return nil, false
+		}
+		if !seen[p] {
+			seen[p] = true
+			prefixes = append(prefixes, p)
+		}
+	}
+	return prefixes, true
+}
+
+// checkOverflow: in the go64 dialect integers are fixed-width. Instead of modelling wrap-around, every + - * ++ --
+// on a typed integer gets an obligation that the mathematical result fits the type; once discharged, mathematical
+// and machine arithmetic agree on every path.
+func (e *Engine) checkOverflow(fr *frame, st *State, typed ast.Expr, r Val) {
+	if !e.Go64 || fr.ver == nil || r.Ty.K != spec.KInt {
+		return
+	}
+	tv, ok := fr.info.Types[typed]
+	if !ok || tv.Type == nil {
+		return
+	}
+	b, ok := tv.Type.Underlying().(*types.Basic)
+	if !ok || b.Info()&types.IsInteger == 0 {
+		return
+	}
+	var lo, hi string
+	switch b.Kind() {
+	case types.Uint8:
+		lo, hi = "0", "255"
+	case types.Uint16:
+		lo, hi = "0", "65535"
+	case types.Uint32:
+		lo, hi = "0", "4294967295"
+	case types.Uint64, types.Uint, types.Uintptr:
+		lo, hi = "0", "18446744073709551615"
+	case types.Int8:
+		lo, hi = "-128", "127"
+	case types.Int16:
+		lo, hi = "-32768", "32767"
+	case types.Int32:
+		lo, hi = "-2147483648", "2147483647"
+	case types.Int64, types.Int:
+		lo, hi = "-9223372036854775808", "9223372036854775807"
+	default:
+		return
+	}
+	base := fr.pkg.Types.Name() + "." + specKey(fr.fn)
+	line := fr.pkg.Fset.Position(typed.Pos()).Line
+	_ = line
+	g := sx.And(sx.App("<=", sx.IntS(lo), r.T), sx.App("<=", r.T, sx.IntS(hi)))
+	fr.ver.add(base+"#nooverflow", nil, "every + - * ++ -- on a fixed-width integer stays within its type ("+b.Name()+")", fr.ver.query(st, nil, g))
 }
